@@ -469,6 +469,8 @@ func (svr *Service) handleConnection(ctx context.Context, conn net.Conn, interna
 				Error:     util.GenerateResponseErrorString("register visitor conn error", err, lo.FromPtr(svr.cfg.DetailedErrorsToClient)),
 			})
 			conn.Close()
+		} else {
+			verifhook.At("server.registerVisitorConn.afterHandover", m.ProxyName)
 		}
 		// On success the response has been written by the visitor manager before it handed the
 		// connection to the proxy (writing it here could interleave with data the proxy already sends).
